@@ -76,6 +76,13 @@ func (p *prop) Generate(rng *core.Rand, tier string, emit func(string)) {
 	for i := 0; i < nSite/4; i++ {
 		emit(genKbindCase(rgl))
 	}
+	// ---- case-variant duplicates of names in every per-directive unmarshaler, 64 adaptations each
+	for i := 0; i < nSite/5; i++ {
+		emit(genCaseDupCase(rgl))
+	}
+	for i := 0; i < nSite/6; i++ {
+		emit(genFauthCase(rgl))
+	}
 	// ---- site-level named matchers used at top level, in nested blocks and inside handle_errors
 	for i := 0; i < nSite/3; i++ {
 		emit(genNmeqCase(rgl))
